@@ -128,7 +128,11 @@ let () =
                ms := max !ms (int_of_nat (inflight_src g st'));
                md := max !md (int_of_nat (inflight_dst g st'));
                go st' tr' (i + 1)) in
-        match go (init c d0) tr 0 with
+        (* pt=<node>: the destination reference existed before the call and pointed at that node *)
+        let pretag = List.fold_left (fun acc f ->
+          if String.length f > 3 && String.sub f 0 3 = "pt=" then Some (nat_of_int (int_of_string (String.sub f 3 (String.length f - 3)))) else acc) None rest in
+        let st0 = let s0 = init c d0 in (match pretag with Some _ -> { s0 with tag = pretag } | None -> s0) in
+        match go st0 tr 0 with
         | Error i ->
           Printf.printf "%s REJ %d %s\n" id i (List.nth toks i)
         | Ok st ->
